@@ -12,3 +12,13 @@ M("c06_handler_arith_overflow", ["C06"], "bounds", tier="quick", overflow=True,
                "Server::handle_ttl is skipped: its `secs + 1` on Duration::as_secs() of a remaining TTL cannot overflow in reality but the call result is an arbitrary u64 in this encoding",
                "handle_eval_with_db is skipped: its only decided check is `pos + \"REDIS_CALL_ABORT:\".len()` with pos returned by str::find (bounded by the string length in reality, arbitrary here); its client-controlled arithmetic lives in process_keys_and_args, which IS included"],
   fns=[r"server\.rs.*>::handle_\w+$", r"^handle_\w+$", r"commands::\w+::handle_\w+$", r"process_keys_and_args$"], skip=[r"closure", r">::handle_ttl$", r"^handle_eval_with_db$"], msg=r"which would overflow")
+M("c06_engine_arith_overflow", ["C06", "C03"], "bounds", tier="quick", overflow=True, inputs_only=True,
+  desc="arithmetic overflow checks (add / subtract / negate / multiply-by-constant) in the storage engine and the unified command executor whose operands are built from INPUTS - integer parameters, fields of by-value command parameters, results of str::parse - plus lengths of existing collections and constants: no execution on which the check fails exists (LREM/SRANDMEMBER/DECRBY counts at iN::MIN, SETRANGE offset + len, HINCRBY current + increment, ...)",
+  assumptions=["operands that depend on fields of existing state, results of other calls, operators the encoder does not model or loop-carried values are undecided (counted in the evidence), never violations",
+               "lengths are <= isize::MAX; x.len() of an object not borrowed mutably in between returns the same number; named integer consts are evaluated from their MIR bodies"],
+  fns=[r"engine\.rs.*>::\w+$", r"executor\.rs.*>::\w+$"], skip=[r"closure"], msg=r"which would overflow")
+M("c06_reservation_bounded", ["C06"], "alloc_bound", tier="quick", limit=2**40, len_max=2**32,
+  desc="no reservation sized by an unchecked request number: at every Vec/VecDeque/HashMap with_capacity / reserve / resize / vec![x; n] call in the crate whose size is built from inputs (integer parameters, fields of by-value command parameters, str::parse results), lengths of existing collections and constants, the size cannot exceed 2^40 when every existing collection holds at most 2^32 elements (SETRANGE/SETBIT offsets, SRANDMEMBER -count, declared RESP/RDB lengths ...)",
+  assumptions=["sizes that depend on fields of existing state, unmodelled calls/operators or loop-carried values are undecided, never violations",
+               "constructors (::new, ::with_config, ::with_capacity: sizes from the configuration), the replication client (lengths announced by the master, not a client) and test modules are skipped"],
+  fns=[r"."], skip=[r"closure", r"^const ", r"tests::", r"config::", r"main", r"::new$", r"::with_config$", r"::with_capacity$", r"replication"])
